@@ -410,8 +410,15 @@ func (tx *Transaction) AddRequestHeader(key string, value string) {
 		//
 		// There is no URL Decode performed no the cookies
 		values := cookies.ParseCookies(value)
-		for k, vr := range values {
-			for _, v := range vr {
+		// sorted names: the order of the values stored under one case-insensitive name must
+		// not depend on the map iteration order
+		names := make([]string, 0, len(values))
+		for k := range values {
+			names = append(names, k)
+		}
+		sort.Strings(names)
+		for _, k := range names {
+			for _, v := range values[k] {
 				tx.variables.requestCookies.Add(k, v)
 			}
 		}
@@ -766,24 +773,17 @@ func (tx *Transaction) ProcessConnection(client string, cPort int, server string
 // ExtractGetArguments transforms an url encoded string to a map and creates ARGS_GET
 func (tx *Transaction) ExtractGetArguments(uri string) {
 	data := urlutil.ParseQuery(uri, '&')
-	if tx.variables.argsGet.Len()+len(data) >= tx.WAF.ArgumentLimit {
-		// SecArgumentsLimit is (about to be) reached. Go maps iterate in random order:
-		// walk the names in sorted order so that the arguments that are kept (and therefore
-		// the outcome of the transaction) do not change from one run to the next.
-		keys := make([]string, 0, len(data))
-		for k := range data {
-			keys = append(keys, k)
-		}
-		sort.Strings(keys)
-		for _, k := range keys {
-			for _, v := range data[k] {
-				tx.AddGetRequestArgument(k, v)
-			}
-		}
-		return
+	// Go maps iterate in random order: walk the names in sorted order, so that neither the
+	// arguments kept when SecArgumentsLimit is reached nor the order of the values stored
+	// under one case-insensitive name (what %{ARGS_GET.name} expands to) change from one
+	// run to the next.
+	keys := make([]string, 0, len(data))
+	for k := range data {
+		keys = append(keys, k)
 	}
-	for k, vs := range data {
-		for _, v := range vs {
+	sort.Strings(keys)
+	for _, k := range keys {
+		for _, v := range data[k] {
 			tx.AddGetRequestArgument(k, v)
 		}
 	}
